@@ -22,7 +22,16 @@ open StepModel.PyAgg
 def indices (lo hi : Int) : List Int := (List.range (hi - lo + 1).toNat).map (fun (k : Nat) => lo + (k : Int))
 
 /-- total order on element values used only to keep BAG/SET values canonical -/
-def Val.le (a b : Val) : Bool := decide (a.ty < b.ty) || (decide (a.ty = b.ty) && decide (a.v ≤ b.v))
+def kindIdx : Kind → Nat
+  | .array => 0 | .list => 1 | .bag => 2 | .set => 3
+
+/-- an injective numbering of types, only to order values -/
+def tyCode : Ty → Nat
+  | .simple t => 5 * t
+  | .agg k b => 5 * b + 1 + kindIdx k
+
+def Val.le (a b : Val) : Bool :=
+  decide (tyCode a.ty < tyCode b.ty) || (decide (tyCode a.ty = tyCode b.ty) && decide (a.v ≤ b.v))
 
 def insertSorted (x : Val) : List Val → List Val
   | [] => [x]
